@@ -52,6 +52,10 @@ def gen(rng, budget, tier):
             n = min(n, 1)                       # without an order key the row order is the map's
         final = rng.randrange(2)
         pre = rng.choice(["none", "none", "-", hexs(b"count(x)\n7\n"), hexs(b"old,data\n1,2\n3,4\n")])
+        if rng.random() < 0.3:
+            # a stale <outfile>.tmp (left by a run that was killed after an interim write), usually longer than the new result
+            stale = rng.choice([b"count(x)\n" + b"99999,stale-row-of-an-earlier-run\n" * rng.choice([8, 40, 40]), b"count(x)\n" + b"99999,stale-row-of-an-earlier-run\n" * 40, b"", b"x"])
+            pre += "/" + hexs(stale)
         kill = 0
         if rng.random() < (0.15 if tier == "quick" else 0.4):
             kill = rng.randrange(1, 30)
